@@ -1,4 +1,5 @@
 import OnetVerif.Model.Util
+import OnetVerif.Model.C14Par
 /-! Model for property C14: every client request gets the reply computed for exactly that request.
 
 What is modelled (anchors are to /repo at the time of writing):
@@ -1359,6 +1360,32 @@ def step (s : State) (toks : List String) : State × String :=
     -- `Service.ProcessClientRequest` called directly (processor.go:645-676)
     match Util.unhex buf with
     | some b => directShow s path b
+    | none => (s, "bad-op")
+  | ["getlist", n, par, ask, start, dont, mask, o] =>
+    -- `ParallelOptions.GetList` on a roster of n nodes (named by their position): the number of routines
+    -- and the nodes asked (`getList`, `c14_getlist_numbers`, `c14_getlist_asked`); with a shuffled order
+    -- only their number is determined
+    match n.toNat?, par.toInt?, ask.toInt?, start.toInt?, mask.toNat? with
+    | some n, some par, some ask, some start, some mask =>
+      if n > 24 ∨ (dont ≠ "0" ∧ dont ≠ "1") ∨ (o ≠ "opt" ∧ o ≠ "nil") then (s, "bad-op") else
+      let nodes := List.range n
+      let po : Option ParOpts := if o = "nil" then none else
+        some { parallel := par, askNodes := ask, startNode := start, dontShuffle := dont = "1",
+               ignore := nodes.filter (fun i => mask.testBit i) }
+      let r := getList nodes po (List.range n)
+      (s, if o = "opt" ∧ dont = "1" ∧ n > 0 then
+            s!"par={r.1} asked=" ++ (if r.2.isEmpty then "-" else ".".intercalate (r.2.map toString))
+          else s!"par={r.1} n={r.2.length}")
+    | _, _, _, _, _ => (s, "bad-op")
+  | ["parnobody", mode, n] =>
+    -- `SendProtobufParallel` with nobody to ask: an error value (`c14_parallel_nobody_to_ask_is_an_error`)
+    match n.toNat? with
+    | some n =>
+      if n > 8 ∨ (mode ≠ "empty" ∧ mode ≠ "nilroster" ∧ mode ≠ "ignoreall") then (s, "bad-op") else
+      let nodes := if mode = "ignoreall" then List.range n else []
+      let asked := (getList nodes (if mode = "ignoreall" then some { ignore := nodes } else none) (List.range nodes.length)).2
+      (s, match nobodyToAsk true asked with
+          | some .error => "err" | some .crash => "panic" | some (.node _) => "ok" | none => "ok")
     | none => (s, "bad-op")
   | ["cstate", client] => (s, clientState s client)
   | ["barrier"] => (s, "ok")
